@@ -4,6 +4,9 @@
 use jbverif::props;
 use jbverif::runner::{Session, Tier};
 
+#[global_allocator]
+static ALLOC: jbverif::alloc_count::Counting = jbverif::alloc_count::Counting;
+
 fn usage() -> ! {
     eprintln!("usage: check <ID>|list [--tier quick|thorough] [--replay FILE]");
     std::process::exit(2)
@@ -26,6 +29,7 @@ fn main() {
         _ => Tier::Quick,
     };
     let mut replay: Option<String> = None;
+    let mut replay_bytes: Option<String> = None;
     let mut i = 1;
     while i < args.len() {
         match args[i].as_str() {
@@ -40,6 +44,10 @@ fn main() {
             "--replay" => {
                 i += 1;
                 replay = Some(args.get(i).cloned().unwrap_or_else(|| usage()));
+            }
+            "--replay-bytes" => {
+                i += 1;
+                replay_bytes = Some(args.get(i).cloned().unwrap_or_else(|| usage()));
             }
             _ => usage(),
         }
@@ -70,6 +78,20 @@ fn main() {
         std::process::exit(2);
     });
 
+    if let Some(file) = replay_bytes {
+        // isolated single load (C18): exit 0 = returned Ok/Err, 1 = violation
+        let mut s = Session::new(def.id, tier, seed, def.level);
+        let ok = (def.replay_custom)(&mut s, &serde_json::json!({ "kind": "bytes-file", "path": file }));
+        jbverif::util::cleanup_scratch();
+        std::process::exit(if ok && s.violations.is_empty() { 0 } else { 1 });
+    }
+    if id == "C18" && replay.is_none() && std::env::var("VERIF_C18_CHILD").is_err() {
+        let code = jbverif::isolate::run_isolated(&id, tier, seed);
+        std::process::exit(code);
+    }
+    if std::env::var("VERIF_C18_CHILD").is_ok() {
+        jbverif::isolate::start_hang_monitor();
+    }
     let code = jbverif::props::run_property(&def, tier, seed, replay.as_deref());
     jbverif::util::cleanup_scratch();
     std::process::exit(code);
